@@ -73,6 +73,13 @@ func (s *Translator) shouldUseExpandInto(part *PatternPart, stepIndex int, trave
 			return true
 		}
 
+		// Steps synthesized by the exact-range lowering share the source target of the range step and have no
+		// expand-into decision of their own; when both endpoints are already bound they must still correlate
+		// on the bound endpoint instead of joining the node table again (one copy of every row per node).
+		if _, lowered := s.exactRangeExpansionDecisions[target]; lowered {
+			return true
+		}
+
 		return false
 	}
 
